@@ -8,6 +8,7 @@ import OmbottModel.Drv.Router
 import OmbottModel.Drv.RouteUrl
 import OmbottModel.Drv.Multipart
 import OmbottModel.Drv.Body
+import OmbottModel.Drv.Forms
 /-! Dispatch of a protocol line to the area handlers.  `State` holds the few models that are
 driven as state machines across lines (router, multipart feed, header store). -/
 namespace Drv
@@ -35,6 +36,7 @@ def step (st : State) (line : String) : State × String :=
     | "routeurl" => pure? (RouteUrl.handle rest)
     | "mp" => pure? (Multipart.handle rest)
     | "body" => pure? (Body.handle rest)
+    | "forms" => pure? (Forms.handle rest)
     | _ => (st, "bad-op")
 
 end Drv
